@@ -146,6 +146,7 @@ func cmdCheck(args []string) {
 		os.Exit(1)
 	}
 	e.Tier = *tier
+	e.CurProp = *prop
 	units := collectUnits(e, *prop)
 	var all []*Obligation
 	for _, u := range units {
